@@ -215,6 +215,7 @@ class _Ctx:
         self.side = []
         self.raises = []          # (guard, exception name)
         self.lemmas = []          # consequences of assumptions + pc established by the solver
+        self.unwind = []          # deferred unwinding assertions: (guard that must be unsatisfiable, loop node)
         self.timeout_ms = timeout_ms
         self.s = z3.SolverFor("QF_BV")
         self.s.set("timeout", min(timeout_ms, 3000))
@@ -234,6 +235,7 @@ class _Ctx:
             s.add(*self.assumptions)
             s.add(*self.pc)
             s.add(*self.lemmas)
+            s.add(*[z3.Not(g) for g, _ in self.unwind])
             s.add(cond)
             r = s.check()
             self.nq += 1
@@ -278,7 +280,7 @@ class _Frame:
 
 class Interp:
     def __init__(self, W, classes=(), loop_mode=None, default_loop="fork", max_unroll=80, always_interpret=(),
-                 attr_stubs=None, fn_stubs=None, decide_timeout_ms=30000, mutants=None):
+                 attr_stubs=None, fn_stubs=None, decide_timeout_ms=30000, mutants=None, unroll=None):
         self.W = W
         self.classes = set(classes)
         self.loop_mode = dict(loop_mode or {})       # qualname -> "merge" | "fork"
@@ -291,6 +293,9 @@ class Interp:
         self.mutants = dict(mutants or {})            # function -> ast.FunctionDef (in-memory mutated copy)
         self.src = {}
         self.nomerge = set()
+        self.unroll_hint = {}
+        self.unroll = dict(unroll or {})              # qualname -> initial unrolling of its merged loops (validated by the
+                                                      # deferred unwinding assertion, raised automatically when too small)
         self.ctx = None
         self.g = True
         self.frames = []
@@ -583,6 +588,33 @@ class Interp:
         ctx.add(cond if v else z3.Not(cond))
         return v
 
+    def loop_alive(self, s, it, g, learned, qual=None):
+        """may any state under guard g start iteration `it` of the merged loop s?
+        First encounter of a loop: ask the solver each time and remember the trip count.  Later
+        encounters: unroll to the remembered count without queries and *defer* the unwinding assertion
+        (guard after the last unrolling is unsatisfiable) to one query at the end of the path; if that
+        fails the remembered count is raised and the path is re-run."""
+        if isinstance(g, bool):
+            return g
+        hint = self.unroll_hint.get(id(s))
+        if hint is None and qual in self.unroll:
+            hint = self.unroll_hint[id(s)] = self.unroll[qual]
+        if hint is None:
+            c = z3.simplify(g)
+            if z3.is_true(c):
+                return True
+            if z3.is_false(c):
+                return False
+            learned[0] = True
+            return self.feasible(c)
+        if it < hint:
+            return True
+        # defer, and meanwhile *assume* the assertion: the rest of the path is explored for the states
+        # that did finish the loop; the path is only accepted once _check_unwind has proved the assertion
+        self.ctx.unwind.append((g, s))
+        self.ctx.s.add(z3.Not(g))
+        return False
+
     def decide_guarded(self, c):
         """fork on c for the states of the current guard g: three ways {g&c, g&~c, ~g}.  The first two
         make the guard redundant (pc implies g); on the third this arm is dead and the states are the
@@ -671,6 +703,9 @@ class Interp:
                     r = None
                     break
                 ctx = self.ctx
+                if ctx.unwind and not self._check_unwind(ctx):
+                    self.stats["restarts"] += 1
+                    continue
                 out.append(Path(ctx, r, dead))
                 self.stats["paths"] += 1
                 self.stats["decide_queries"] += ctx.nq
@@ -682,6 +717,31 @@ class Interp:
                     raise Unwind(f"more than {max_paths} paths")
                 break
         return out
+
+    def _check_unwind(self, ctx):
+        """deferred unwinding assertions of this path: one one-shot query; on failure raise the bounds"""
+        s = z3.SolverFor("QF_BV")
+        s.set("timeout", self.decide_timeout_ms)
+        s.add(*ctx.assumptions)
+        s.add(*ctx.pc)
+        s.add(z3.Or([g for g, _ in ctx.unwind]))
+        t0 = time.time()
+        r = s.check()
+        ctx.nq += 1
+        ctx.t += time.time() - t0
+        if r == z3.unsat:
+            return True
+        if r != z3.sat:
+            raise Inconclusive("deferred unwinding assertion undecided within the decision timeout")
+        m = s.model()
+        bumped = set()
+        for g, node in ctx.unwind:
+            if id(node) not in bumped and z3.is_true(m.eval(g, model_completion=True)):
+                self.unroll_hint[id(node)] = self.unroll_hint.get(id(node), 0) + 1
+                if self.unroll_hint[id(node)] > self.max_unroll:
+                    raise Unwind(f"unwinding assertion failed (bound {self.max_unroll})")
+                bumped.add(id(node))
+        return False
 
     def _fail_merge(self, nodes):
         nodes = [n for n in nodes if n is not None]
@@ -777,6 +837,8 @@ class Interp:
         except TypeError:
             pass
         if inspect.ismethod(f):
+            if getattr(f.__self__, "e2_stub", False):      # methods of stub objects are the model itself
+                return self.native(f, args, kwargs)
             return self.invoke(f.__func__, [f.__self__] + list(args), kwargs)
         symbolic = sym_deep(list(args)) or sym_deep(list(kwargs.values()))
         if isinstance(f, type):
@@ -1187,6 +1249,7 @@ class Interp:
         it = 0
         pushed = False
         escaped = False       # did some states leave the previous iteration's body (break/return/raise)?
+        learned = [False]
         try:
             while True:
                 if self.g is False:
@@ -1195,13 +1258,10 @@ class Interp:
                     if it >= len(items):
                         exits.append(self.g)
                         break
-                    if escaped and self.g is not True and not self.feasible(self.g):
-                        self.g = False
-                        break
                     self.assign(s.target, items[it], fr)
                     body_guard = self.g
                 else:
-                    if escaped and self.g is not True and not self.feasible(self.g):
+                    if escaped and self.g is not True and not self.loop_alive(s, it, self.g, learned, fr.qual):
                         self.g = False
                         break
                     c = self.ev(s.test, fr)
@@ -1224,7 +1284,7 @@ class Interp:
                             body_guard = self.g
                         else:
                             gc = g_and(self.g, ce)
-                            if not self.feasible(gc):
+                            if not self.loop_alive(s, it, gc, learned, fr.qual):
                                 exits.append(self.g)
                                 break
                             exits.append(g_and(self.g, z3.Not(ce)))
@@ -1271,6 +1331,8 @@ class Interp:
             fr.loops.pop()
             if pushed:
                 self.merge_stack.pop()
+        if learned[0]:
+            self.unroll_hint[id(s)] = max(self.unroll_hint.get(id(s), 0), it)
         # ---- loop exit: normal exits and breaks -------------------------------------------------
         loc = fr.loc
         g_out = g_or(exits)
@@ -1740,7 +1802,8 @@ def prove(I, thunk, assumptions, variables, native, tally, timeout_s=60, expect=
     to_ms = int(timeout_s * 1000)
 
     def vals_of(m):
-        return {n: m.eval(variables[n], model_completion=True).as_long() for n in names}
+        # variables are W-bit signed views of Python ints
+        return {n: m.eval(variables[n], model_completion=True).as_signed_long() for n in names}
 
     for p in paths:
         base = list(p.assumptions) + list(p.pc)
@@ -1806,7 +1869,7 @@ def prove(I, thunk, assumptions, variables, native, tally, timeout_s=60, expect=
                 if cross_check is not None and cross_check():
                     try:
                         t0 = time.time()
-                        cr = cvc5_check(s.to_smt2(), timeout_ms=to_ms)
+                        cr = cvc5_check(s.to_smt2(), timeout_ms=min(to_ms, 10000))
                         tally.count("cvc5-" + cr, time.time() - t0)
                         res["crosschecked"] += 1
                         if cr == "sat":
@@ -1850,3 +1913,77 @@ def prove(I, thunk, assumptions, variables, native, tally, timeout_s=60, expect=
         if res["status"] == "error":
             return res
     return res
+
+
+# ------------------------------------------------------------------------------------------------
+# from a decided law to obligation records (shared by the C14-Gray and C18 checks)
+# ------------------------------------------------------------------------------------------------
+def obligations(pid, clause, config, I, thunk, variables, assumptions, native, tally, *, text="", timeout_s=60,
+                expect=None, block_of=None, known=None, cross_check=None, minimize=True, describe=None,
+                max_witnesses=8, stretch=False):
+    """Run prove() and turn the outcome into obligation dicts (kverif.common.ob).
+
+    Known findings: a witness that matches an entry of known_findings.json (same property, clause, config
+    and witness subset) is recorded, *blocked* (block_of(witness) or `inputs != witness`) and the query is
+    repeated, so that any other violation of the same clause still surfaces as a new violation."""
+    from kverif import common
+    if known is None:
+        known = common.load_known()
+
+    def as_ob(w):
+        what = describe(w["witness"], w["info"]) if describe else f"{text} fails at {w['witness']} ({w['info']})"
+        return common.ob(clause, config, "violated", what=what, witness=w["witness"],
+                         replay=dict(reproduced=bool(w["reproduced"]), inputs=w["witness"], observed=str(w["info"]), law=text),
+                         stretch=stretch)
+
+    def on_witness(wit):
+        probe = dict(clause=clause, config=config, witness=wit)
+        if common.known_match(known, pid, probe) is None:
+            return None
+        if block_of is not None:
+            return block_of(wit)
+        return z3.Or([variables[n] != wit[n] for n in wit if n in variables])
+
+    t0 = time.time()
+    try:
+        res = prove(I, thunk, assumptions, variables, native, tally, timeout_s=timeout_s, expect=expect,
+                    on_witness=on_witness, minimize=minimize, max_witnesses=max_witnesses, cross_check=cross_check)
+    except (NotEncodable, Unwind, Inconclusive) as e:
+        st = "inconclusive" if isinstance(e, Inconclusive) else "error"
+        return [common.ob(clause, config, st, what=f"{type(e).__name__}: {e}", stretch=stretch, **tally.take())]
+    wall = round(time.time() - t0, 2)
+    sample = dict(law=text, bound=config, width_bits=I.W, paths=res["paths"], result=res["status"],
+                  reachable_example=res["reach"], wall_s=wall, cvc5_crosschecked=res["crosschecked"])
+    out = []
+    stats = tally.take()
+    if res["status"] == "holds":
+        out.append(common.ob(clause, config, "holds", what=text, sample=sample, stretch=stretch, **stats))
+        return out
+    if res["status"] in ("error", "inconclusive") and not res["witnesses"]:
+        out.append(common.ob(clause, config, res["status"], what=res["note"] or res["status"], sample=sample, stretch=stretch, **stats))
+        return out
+    first = True
+    all_known = True
+    for w in res["witnesses"]:
+        o = as_ob(w)
+        if first:
+            o.update(stats)
+            sample["witness"] = w["witness"]
+            o["sample"] = sample
+            first = False
+        if not w["reproduced"]:
+            o["status"] = "violated"      # common.finish turns a non-reproducing model into a harness error
+        if common.known_match(known, pid, o) is None:
+            all_known = False
+        out.append(o)
+    if res["status"] == "error":
+        out.append(common.ob(clause, config, "error", what=res["note"], stretch=stretch))
+    elif res["status"] == "inconclusive":
+        out.append(common.ob(clause, config, "inconclusive", what=res["note"], stretch=stretch))
+    elif all_known and "cut off" not in res["note"]:
+        blocked = ", ".join(str(w["witness"]) for w in res["witnesses"])
+        out.append(common.ob(clause, config + " minus known findings", "holds",
+                             what=f"{text}: no further violation once the known findings [{blocked}] are excluded", stretch=stretch))
+    elif all_known:
+        out.append(common.ob(clause, config, "inconclusive", what="more than the allowed number of known-finding witnesses; enumeration cut off", stretch=stretch))
+    return out
